@@ -15,6 +15,8 @@ def instances(tier):
         # overlaps that lie entirely below / above the image window still have to be rejected
         yield 'core-len3-verbosity3', dict(BASE, max_len=3, verbose=3), 'AlphaC04core', None
         yield 'wide-predefined-value-len3', dict(BASE, max_len=3, pre_data_op='DataWide', pre_data=[('pd1', 5, 4660, 2)]), 'AlphaC04core', None
+        yield 'redefined-global-len3', dict(BASE, max_len=3, origin=4, pre_zones_op='ZonesB', pre_zones=[('GLOBAL', 4, 15), ('z1', 6, 9), ('z2', 14, 17)],
+                                            pre_data_op='MCNoData', pre_data=[]), 'AlphaC04global', None
         yield 'window-above-len3', dict(BASE, max_len=3, win_start=9, win_end=12), 'AlphaC04core', None
         yield 'window-below-len3', dict(BASE, max_len=3, win_start=0, win_end=0, fill=7), 'AlphaC04core', None
     else:
@@ -22,6 +24,8 @@ def instances(tier):
         yield 'sim10', dict(BASE, max_len=10), 'AlphaC04', 'num=30000'
         yield 'core-len4-verbosity3', dict(BASE, max_len=4, verbose=3), 'AlphaC04core', None
         yield 'wide-predefined-value-len4', dict(BASE, max_len=4, pre_data_op='DataWide', pre_data=[('pd1', 5, 4660, 2)]), 'AlphaC04core', None
+        yield 'redefined-global-len4', dict(BASE, max_len=4, origin=4, pre_zones_op='ZonesB', pre_zones=[('GLOBAL', 4, 15), ('z1', 6, 9), ('z2', 14, 17)],
+                                            pre_data_op='MCNoData', pre_data=[]), 'AlphaC04global', None
         yield 'window-above-len4', dict(BASE, max_len=4, win_start=9, win_end=12), 'AlphaC04core', None
         yield 'window-below-len4', dict(BASE, max_len=4, win_start=0, win_end=0, fill=7), 'AlphaC04core', None
         yield 'window-middle-len4', dict(BASE, max_len=4, win_start=3, win_end=4), 'AlphaC04core', None
